@@ -50,13 +50,14 @@ NRowsClass(s, e) == IF IsNumber(s) /\ IsNumber(e) /\ Rank(e) > Rank(s) THEN "som
 \*   absent-trailing-slash  a new name followed by '/': nothing exists there, and nothing can be opened there
 \*   symlink-loop           a link that points to itself
 \*   dangling-into-missing-dir  a link whose target lies in a directory that does not exist
+\*   absent-no-extension    a new name without a suffix, next to existing files called <name>.json / <name>.txt
 FileClasses == {"none", "absent", "existing", "dir", "symlink-to-file", "dangling-symlink", "parent-missing", "empty-string",
                 "symlink-rel-in-subdir", "symlink-up", "symlink-abs-to-file", "symlink-to-dir", "existing-dotdot", "absent-in-subdir",
-                "absent-trailing-slash", "symlink-loop", "dangling-into-missing-dir"}
+                "absent-trailing-slash", "symlink-loop", "dangling-into-missing-dir", "absent-no-extension"}
 ExistingClasses == {"existing", "dir", "symlink-to-file", "symlink-rel-in-subdir", "symlink-up", "symlink-abs-to-file",
                     "symlink-to-dir", "existing-dotdot"}
-CreatableClasses == {"absent", "dangling-symlink", "absent-in-subdir"}
-FileVerdict(f) == CASE f \in {"none", "absent", "absent-in-subdir"} -> "accept"
+CreatableClasses == {"absent", "dangling-symlink", "absent-in-subdir", "absent-no-extension"}
+FileVerdict(f) == CASE f \in {"none", "absent", "absent-in-subdir", "absent-no-extension"} -> "accept"
                     [] f = "dangling-symlink" -> "either"    \* nothing exists at the path; creating the target is not overwriting
                     [] OTHER -> "reject"
 
